@@ -157,3 +157,24 @@ prop("C17", modules=["partition"],
      design_ref="DESIGN.md section 6, C17",
      trusted=["the serialised index carries exactly the entries of the dict (JSON round trip of the index assumed)", "Codec.store / BlobStrategy.store: C07"],
      assumptions=["a partition's own interface (list_keys(False) = its own keys each once, get(k) = value_of(p, k)) is summarised; each class's get / list_keys is proved separately"])
+
+prop("C01", modules=["codehash"],
+     functions=["code_hash:fn_code_hash.<locals>.hash_if_code_object", "code_hash:fn_code_hash",
+                # in-process staleness: the cached version is used only when no collected rule reports a change (contracts of C13)
+                MFN + "_update_dependencies", "code_hash:UndefinedSymbolHashRule.did_change", "code_hash:MementoFunctionHashRule.did_change",
+                "code_hash:GlobalVariableHashRule.did_change", "code_hash:NonMementoFunctionHashRule.did_change",
+                # the version is part of the storage key: the qualified name carries '#version' (contracts of C12)
+                "reference:FunctionReference.__init__"],
+     function_modules=dict({MFN + "_update_dependencies": ["version"], "reference:FunctionReference.__init__": ["names"]},
+                           **{"code_hash:%s.did_change" % k: ["version"] for k in ("UndefinedSymbolHashRule", "MementoFunctionHashRule", "GlobalVariableHashRule", "NonMementoFunctionHashRule")}),
+     split={"reference:FunctionReference.__init__": 12},
+     design_ref="DESIGN.md section 6, C01",
+     trusted=["json.dumps / base64 / utf-8 / SHA-256 injective (assumed)"],
+     assumptions=[])
+
+prop("C03", modules=["codehash"],
+     functions=["code_hash:_stable_repr", "code_hash:fn_code_hash.<locals>.hash_if_code_object", "memento:MementoFunction._recompute_version"],
+     extra_checks=["contracts.extra:env_salt"],
+     design_ref="DESIGN.md section 6, C03",
+     trusted=["value table of seed-independent repr(); 'sorting removes iteration order' (bag lemma); seed independence is checked on value terms by substituting a second seed"],
+     assumptions=[])
